@@ -22,6 +22,8 @@ package main
 import (
 	"fmt"
 	"math/rand"
+	"os"
+	"path/filepath"
 	"reflect"
 	"regexp"
 	"sort"
@@ -604,7 +606,8 @@ func (r *c03Ref) ty(node ast.Node) c03RT {
 		}
 		switch n.Name {
 		case "all", "none", "any", "one", "filter", "count":
-			if !body.dyn() && !body.isBool() && len(n.Arguments) > 1 {
+			// a nil body has no static type: the closure returns a dynamic value
+			if !body.dyn() && body.c != rNil && !body.isBool() && len(n.Arguments) > 1 {
 				r.viol("predicate", n.Arguments[1])
 			}
 		}
@@ -872,6 +875,9 @@ func c03Shapes(root ast.Node, envT reflect.Type) []string {
 				}
 			}
 		case *ast.MethodNode:
+			if x.NilSafe && x.Type() == nil {
+				found["C03-nilsafe-on-slice"] = true
+			}
 			if t := x.Node.Type(); t != nil {
 				if m, ok := t.MethodByName(x.Method); ok && t.Kind() != reflect.Interface {
 					callArgs(m.Type, true, x.Arguments)
@@ -1260,6 +1266,23 @@ type c03Input struct {
 
 func runC03() {
 	rep := newReport("C03")
+	debugAll := map[string]bool{}
+	defer func() {
+		if os.Getenv("C03_DEBUG") != "" {
+			var ks []string
+			for k := range debugAll {
+				ks = append(ks, k)
+			}
+			sort.Strings(ks)
+			os.WriteFile(filepath.Join(*outDir, "failures_all.txt"), []byte(strings.Join(ks, "\n")+"\n"), 0644)
+		}
+	}()
+	fail := func(f Failure) {
+		if in, ok := f.Input.(c03Input); ok {
+			debugAll[f.Key+" | "+in.World+" | "+in.Src+" | "+in.Directive+" | "+f.Got] = true
+		}
+		rep.fail(f)
+	}
 	rng := rand.New(rand.NewSource(*seed))
 	nGen, nEnvs, exLevel, coqMutants, coqOrig := 260, 6, 1, 2600, 900
 	if *tier == "thorough" {
@@ -1342,7 +1365,7 @@ func runC03() {
 		{"map[string]interface{}", []expr.Option{expr.Env(mapEnv)}, nil},
 		{"map[string]int", []expr.Option{expr.Env(typedMap)}, nil},
 		{"map[string]int+AllowUndefinedVariables", []expr.Option{expr.Env(typedMap), expr.AllowUndefinedVariables()}, nil},
-		{"Env+Operator(+,Add)(==,IsPos)", []expr.Option{expr.Env(wU.sample), expr.Operator("+", "Add", "Concat"), expr.Operator("<", "Twice")}, nil},
+		{"Env+Operator(+,Add,Concat)(-,Add)", []expr.Option{expr.Env(wU.sample), expr.Operator("+", "Add", "Concat"), expr.Operator("-", "Add")}, nil},
 	}
 	baseTerms := make([]string, len(bases))
 	for i, b := range bases {
@@ -1367,6 +1390,9 @@ func runC03() {
 		}
 		if panicked {
 			rep.hist("checker.Check panicked (C04's business, not serialised)")
+			if os.Getenv("C03_DEBUG") != "" {
+				fmt.Println("PANIC", src, bases[base].name, directive, err)
+			}
 			return
 		}
 		obs := ""
@@ -1409,7 +1435,7 @@ func runC03() {
 				continue
 			}
 			if (cerr == nil) != (compErr == nil) {
-				rep.fail(Failure{Key: "C03-compile-vs-check", What: "expr.Compile and checker.Check disagree on acceptance", Input: input, Got: fmt.Sprint(compErr, " / ", cerr)})
+				fail(Failure{Key: "C03-compile-vs-check", What: "expr.Compile and checker.Check disagree on acceptance", Input: input, Got: fmt.Sprint(compErr, " / ", cerr)})
 				continue
 			}
 			// reference typer on a fresh tree (the checker retypes nodes; the reference must not see that)
@@ -1429,7 +1455,7 @@ func runC03() {
 					case len(shapes) > 0 && (shapes[0] == "C03-pointer-operand" || shapes[0] == "C03-builtin-elem-type"):
 						key = shapes[0]
 					}
-					rep.fail(Failure{Key: key, What: "an expression that violates a documented typing rule (" + v.Rule + ") is accepted by expr.Compile",
+					fail(Failure{Key: key, What: "an expression that violates a documented typing rule (" + v.Rule + ") is accepted by expr.Compile",
 						Input: input, Want: "rejected by Compile", Got: fmt.Sprintf("accepted with type %v", t)})
 				} else {
 					rep.hist("ill-typed and rejected")
@@ -1470,7 +1496,7 @@ func runC03() {
 						rep.hist("run fails on a nil pointer (value reason)")
 						continue
 					}
-					rep.fail(Failure{Key: keyOf("C03-type-failure-at-run-time"), What: "a statically typed, accepted program fails for a type reason at run time",
+					fail(Failure{Key: keyOf("C03-type-failure-at-run-time"), What: "a statically typed, accepted program fails for a type reason at run time",
 						Input: in, Want: "no failure of a type class", Got: firstLineOf(r.err.Error())})
 					continue
 				}
@@ -1494,7 +1520,7 @@ func runC03() {
 						rep.hist("nil result through a nil pointer (value reason)")
 						continue
 					}
-					rep.fail(Failure{Key: keyOf("C03-result-type"), What: "the dynamic type of the result is not the type the checker reported",
+					fail(Failure{Key: keyOf("C03-result-type"), What: "the dynamic type of the result is not the type the checker reported",
 						Input: in, Want: fmt.Sprint(want), Got: fmt.Sprint(dt)})
 				}
 			}
